@@ -332,7 +332,7 @@ def run(repo: Repo, rep: Report, tier: str) -> None:
                     rep.ok("R10.4", sub, "handler re-raises / converts on every path", fn.loc(h))
                 elif hn == "FileNotFoundError" and _only_writes_readme(fn, tr):
                     rep.ok("R10.4", sub, "optional documentation artifact (README.md template): no code file depends on it (enumerated exception)", fn.loc(h))
-                elif hn in ("ValueError",) and "relative_to" in norm(tr):
+                elif hn in ("ValueError",) and "relative_to" in " ".join(ast.unparse(tr).split()):
                     rep.ok("R10.4", sub, "path-mapping fallback after a successful comparison (nothing was emitted here)", fn.loc(h))
                 else:
                     rep.violation("R10.4", sub, f"{fn.fq}|swallow|{hn}|{norm(h.body[0])[:60]}",
